@@ -1,5 +1,6 @@
 import SdxModel.Scalar
 import SdxModel.Hash
+import SdxModel.PyFloat
 /-!
 # `syndiffix/anonymizer.py`
 
@@ -15,6 +16,8 @@ structure Env (α : Type) where
   blake8 : ByteArray → UInt64
   /-- the standard-normal deviate derived from a 64-bit seed (`_random_normal(1.0, seed)`) -/
   z : UInt64 → α
+  /-- `str(x)` of a scalar (labels of bucket mid-points) -/
+  label : α → String
 
 /-- Box–Muller on doubles, exactly as `_random_normal` computes it (for `sd = 1`). -/
 def boxMuller (seed : UInt64) : Float :=
@@ -24,7 +27,7 @@ def boxMuller (seed : UInt64) : Float :=
   let u2 := Float.ofNat ((seed >>> 32) &&& 0x7FFFFFFF).toNat / 2147483647.0
   Float.sqrt (-2.0 * Float.log u1) * Float.sin (2.0 * 3.141592653589793 * u2)
 
-def realEnv : Env Float := { sha8 := Sha256.first8LE, blake8 := Blake2b.digest8LE, z := boxMuller }
+def realEnv : Env Float := { sha8 := Sha256.first8LE, blake8 := Blake2b.digest8LE, z := boxMuller, label := pyRepr }
 
 structure FlatInterval where
   lower : Int
